@@ -215,7 +215,7 @@ func capsGallina(c Config) string {
 }
 
 func newReentFile() *lib.CasesFile {
-	return &lib.CasesFile{Imports: []string{"Model.Base", "Model.Ser", "Model.SerAttrs", "Model.SerReent", "Corr.CorrC10"}, Typ: "rcase",
+	return &lib.CasesFile{Imports: []string{"Model.Base", "Model.Ser", "Model.SerAttrs", "Model.SerStruct", "Model.SerReent", "Corr.CorrC10"}, Typ: "rcase",
 		Obligations: map[string]string{"reent_model": "reent_mismatches cases"}}
 }
 
@@ -236,6 +236,10 @@ func (ck *checker) checkScenario(root px.Context, spec *Spec, registered bool, r
 		var env *typeEnv
 		if spec.hasUserTypes() {
 			env = newTypeEnv(ctxS, registered)
+			judgeCtx = ctxS
+			if registered && spec.hasGoStruct() {
+				addGoStructs(ctxS)
+			}
 		}
 		b := newBuilder(ctxS, env)
 		sc := &scenario{ctxS: ctxS, re: re, ser: serialization.NewSerializer(ctxS, re.Cfgs[0].options())}
@@ -544,6 +548,7 @@ func (ck *checker) runReentrant(root px.Context, rng *lib.Rng, scenarios func(*S
 	for q := 0; q < nRandom; q++ {
 		r := rng.Fork()
 		g := newGen(r)
+		g.noGs = true
 		k := 2 + r.Intn(2)
 		s := sArr(0)
 		for j := 0; j < k; j++ {
